@@ -15,7 +15,7 @@ BOUNDS = dict(quick='curves of n <= 4 points (concrete x, symbolic y), |K| <= 2 
               thorough='n <= 5, |K| <= 3, |E| <= 3; otherwise as quick')
 ASSUMPTIONS = ['exact real arithmetic (T1)', 'tolerance t >= 0', 'mcc only where its denominator is non-zero (as in the statement)',
                'rmspe: coordinates of the iterated side are > 0 (ratios)']
-CONFIG = dict(quick=dict(budget_s=160, case_wall_s=140), thorough=dict(budget_s=1700, case_wall_s=1500))
+CONFIG = dict(quick=dict(budget_s=160, case_wall_s=140), thorough=dict(budget_s=900, case_wall_s=700))
 STRATS = ['knees', 'expected', 'best', 'worst']
 
 
